@@ -210,8 +210,14 @@ Validate ==
   /\ UNCHANGED <<fmt, lenient, line, rest, popts, argsS, optsS, result>>
 
 \* ---- Args.set_argument / set_option: typed conversion
-ConvV(el, v) ==      \* v: NoneV | TrueV | Str
-  IF v.t = "N" THEN Conv(el.type, el.nullable, TRUE, <<>>) ELSE Conv(el.type, el.nullable, FALSE, v.v)
+ConvV(el, v) ==      \* v: NoneV | Str; TrueV / Lst only reach here when a scratch map carries entries of another format
+  IF v.t = "N" THEN Conv(el.type, el.nullable, TRUE, <<>>)
+  ELSE IF v.t = "T" THEN (CASE el.type = "str" -> [k |-> "str", v |-> <<"t", "r", "u", "e">>]
+                            [] el.type = "bool" -> [k |-> "bool", v |-> TRUE]
+                            [] el.type = "int" -> [k |-> "int", neg |-> FALSE, digits |-> <<"1">>]
+                            [] OTHER -> [k |-> "float?"])
+  ELSE IF v.t = "L" THEN (IF el.type = "str" THEN [k |-> "str", v |-> <<"<list>">>] ELSE [k |-> "ValueError"])
+  ELSE Conv(el.type, el.nullable, FALSE, v.v)
 ConvList(el, vs) == [k \in 1..Len(vs) |-> ConvV(el, vs[k])]
 Bad(c) == c.k = "ValueError"
 TypedArg(ar, v) ==
